@@ -115,6 +115,19 @@ pub fn run(a: &Args) {
             }
         }
     }
+    // every width 1..70 (all row lengths modulo the 32-byte vector chunk) for every pixel size, with the filters that look left
+    for &(color, depth) in COLOR_DEPTHS.iter() {
+        for w in 1..=70u32 {
+            for filter in [1u8, 3, 4, 5] {
+                if !thorough && (w + filter as u32 + color as u32) % 2 == 0 && w > 8 {
+                    continue;
+                }
+                let cfg = WCfg { w, h: 2, color, depth, animated: None, sep: false, compression: *rng.pick(&[3u8, 8, 11]), filter, validate: false,
+                    palette: if color == 3 { Some((0..3 * (1usize << depth.min(8))).map(|_| rng.byte()).collect()) } else { None } };
+                one(&mut o, &mut rng, &cfg, if w % 5 == 0 { Some(64) } else { None }, vec![], 0, w <= 12);
+            }
+        }
+    }
     // every compression setting with every filter on one shape
     for compression in 0..17u8 {
         for filter in 0..6u8 {
